@@ -34,9 +34,10 @@ class Coordinate:
                 # Crosses the antimeridian
                 lon = lon - 360 if lon > 180 else lon + 360
 
-        # Longitudes are bounded to [-180, 180)
-        if lon == 180:
-            lon = -180
+            # Longitudes are bounded to [-180, 180); an unbounded coordinate (the far end of an
+            # edge un-wrapped by ensure_edge_bounds) keeps a longitude of 180
+            if lon == 180:
+                lon = -180
 
         self.longitude = lon
         self.latitude = lat
